@@ -186,12 +186,40 @@ fn measure(c: &Cell_) -> Measured {
             p
         }));
     }
+    // with None and a near timer nothing but that timer ends the wait: a rescuer pings long after the
+    // deadline so that a timer that never fires shows as a measured oversleep instead of a hang
+    let mut rescuer = None;
+    if to.is_none() && !needs_helper {
+        let (p, s) = make_ping().unwrap();
+        h.insert_source(s, |_, _, n| *n += 1000).unwrap();
+        let after = deadline.map(|d| d.saturating_duration_since(Instant::now())).unwrap_or_default() * 3 + Duration::from_millis(400);
+        let stop = std::sync::Arc::new(std::sync::atomic::AtomicBool::new(false));
+        let stop2 = stop.clone();
+        rescuer = Some((
+            std::thread::spawn(move || {
+                let t = Instant::now();
+                while t.elapsed() < after {
+                    if stop2.load(std::sync::atomic::Ordering::SeqCst) {
+                        return p;
+                    }
+                    std::thread::sleep(Duration::from_millis(2));
+                }
+                p.ping();
+                p
+            }),
+            stop,
+        ));
+    }
     let mut cbs = 0u32;
     let t_before = Instant::now();
     let r = el.dispatch(to, &mut cbs);
     let elapsed = t_before.elapsed();
     r.expect("dispatch");
     let keep_ping = helper.map(|h| h.join().unwrap());
+    let keep_ping2 = rescuer.map(|(h, stop)| {
+        stop.store(true, std::sync::atomic::Ordering::SeqCst);
+        h.join().unwrap()
+    });
     let until_deadline = deadline.map(|d| d.saturating_duration_since(t_before));
     let limit = if needs_helper {
         Some(Duration::from_millis(30))
@@ -216,6 +244,7 @@ fn measure(c: &Cell_) -> Measured {
         }
     };
     drop(keep_ping);
+    drop(keep_ping2);
     drop(keep);
     drop(keep_fds);
     Measured { elapsed, limit, timer_fired: fired.get(), timer_is_limit, other_callbacks: cbs, helper_used: needs_helper }
